@@ -51,101 +51,149 @@ theorem C15_cfg_leavesOnDisconnect : genCfg.leavesOnDisconnect = true := by deci
 
 /-- **C15_idle_blocks.** Cache alive, an event sender alive, nothing queued: the iteration blocks in
 `ready` (whatever the source says about disconnection, whatever `ready` would pick). -/
-theorem C15_idle_blocks (leaves pick : Bool) (s : LoopSt) (h1 : s.msgConn = true) (h2 : s.evConn = true)
-    (h3 : s.msgQ = 0) (h4 : s.evQ = 0) : iter leaves pick s = .blocked := by
+theorem C15_idle_blocks (lc : LoopCfg) (pick : Bool) (s : LoopSt) (h1 : s.msgConn = true) (h2 : s.evConn = true)
+    (h3 : s.msgQ = 0) (h4 : s.evQ = 0) : iter lc pick s = .blocked := by
   simp [iter, h1, h2, h3, h4]
 
 /-- Conversely the thread only ever blocks when there is nothing to do and somebody may still send. -/
-theorem C15_blocks_only_when_idle (leaves pick : Bool) (s : LoopSt) (h : iter leaves pick s = .blocked) :
+theorem C15_blocks_only_when_idle (lc : LoopCfg) (pick : Bool) (s : LoopSt) (h : iter lc pick s = .blocked) :
     s.msgConn = true ∧ s.evConn = true ∧ s.msgQ = 0 ∧ s.evQ = 0 := by
   obtain ⟨mq, eq, mc, ec⟩ := s
-  cases mc <;> cases ec <;> cases mq <;> cases eq <;> cases leaves <;> cases pick <;> simp [iter] at h ⊢
+  obtain ⟨l1, l2⟩ := lc
+  cases mc <;> cases ec <;> cases mq <;> cases eq <;> cases l1 <;> cases l2 <;> cases pick <;> simp [iter] at h ⊢
 
-example : iter false true ⟨0, 0, true, true⟩ = .blocked := by decide
-example : iter false true ⟨2, 1, true, true⟩ = .continue_ ⟨0, 0, true, true⟩ := by decide
+example : iter ⟨false, true⟩ true ⟨0, 0, true, true⟩ = .blocked := by decide
+example : iter ⟨false, true⟩ true ⟨2, 1, true, true⟩ = .continue_ ⟨0, 0, true, true⟩ := by decide
 
 /-! ## Goes away with its cache -/
 
 /-- Full-strength statement: once the cache (the only `cache_msg` sender) is gone, the very next
 iteration ends the thread — for every pick, whatever is still queued, whether or not an event
 sender is still alive (i.e. for every source kind). -/
-def C15_stops_after_drop_stmt (leaves : Bool) : Prop :=
-  ∀ (pick : Bool) (s : LoopSt), s.msgConn = false → iter leaves pick s = .exit
+def C15_stops_after_drop_stmt (lc : LoopCfg) : Prop :=
+  ∀ (pick : Bool) (s : LoopSt), s.msgConn = false → iter lc pick s = .exit
 
 /-- **C15_stops_after_drop (repaired loop).** -/
-theorem C15_stops_after_drop : C15_stops_after_drop_stmt true := by
+theorem C15_stops_after_drop (ee : Bool) : C15_stops_after_drop_stmt ⟨true, ee⟩ := by
   intro pick s h
   simp [iter, h]
 
-example : iter true false ⟨3, 2, false, true⟩ = .exit := by decide
+example : iter ⟨true, true⟩ false ⟨3, 2, false, true⟩ = .exit := by decide
 
 /-- ... in terms of runs: no pick sequence of length ≥ 1 leaves the thread alive. -/
-theorem C15_stops_within_one_iteration (s : LoopSt) (h : s.msgConn = false) (p : Bool) (ps : List Bool) :
-    runLoop true s (p :: ps) = none := by
-  simp [runLoop, C15_stops_after_drop p s h]
+theorem C15_stops_within_one_iteration (ee : Bool) (s : LoopSt) (h : s.msgConn = false) (p : Bool) (ps : List Bool) :
+    runLoop ⟨true, ee⟩ s (p :: ps) = none := by
+  simp [runLoop, C15_stops_after_drop ee p s h]
 
 /-- **F-C15 at model level.** In the defective loop, with the cache gone and an event sender alive
 (the in-memory source keeps one; the `FileSystem` watcher holds one until a send *fails*, which needs
 the thread gone — they keep each other alive), every iteration returns at once and continues: -/
-theorem C15_spins (pick : Bool) (s : LoopSt) (h1 : s.msgConn = false) (h2 : s.evConn = true) :
-    ∃ s', iter false pick s = .continue_ s' ∧ s'.msgConn = false ∧ s'.evConn = true ∧ s'.msgQ = 0 ∧ s'.evQ ≤ s.evQ := by
+theorem C15_spins (ee : Bool) (pick : Bool) (s : LoopSt) (h1 : s.msgConn = false) (h2 : s.evConn = true) :
+    ∃ s', iter ⟨false, ee⟩ pick s = .continue_ s' ∧ s'.msgConn = false ∧ s'.evConn = true ∧ s'.msgQ = 0 ∧ s'.evQ ≤ s.evQ := by
   unfold iter
   simp only [h1, h2]
   by_cases he : s.evQ > 0 <;> cases pick <;> simp [he] <;> omega
 
 /-- ... a fixed point once the queues are drained: the thread neither blocks nor exits, it spins. -/
-theorem C15_spins_fixpoint (pick : Bool) (s : LoopSt) (h1 : s.msgConn = false) (h2 : s.evConn = true)
-    (h3 : s.msgQ = 0) (h4 : s.evQ = 0) : iter false pick s = .continue_ s := by
+theorem C15_spins_fixpoint (ee : Bool) (pick : Bool) (s : LoopSt) (h1 : s.msgConn = false) (h2 : s.evConn = true)
+    (h3 : s.msgQ = 0) (h4 : s.evQ = 0) : iter ⟨false, ee⟩ pick s = .continue_ s := by
   cases s; simp_all [iter]
 
 /-- ... for ever: no pick sequence makes it exit or block. -/
-theorem C15_spins_forever (s : LoopSt) (h1 : s.msgConn = false) (h2 : s.evConn = true) (ps : List Bool) :
-    ∃ s', runLoop false s ps = some (s', false) := by
+theorem C15_spins_forever (ee : Bool) (s : LoopSt) (h1 : s.msgConn = false) (h2 : s.evConn = true) (ps : List Bool) :
+    ∃ s', runLoop ⟨false, ee⟩ s ps = some (s', false) := by
   induction ps generalizing s with
   | nil => exact ⟨s, rfl⟩
   | cons p ps ih =>
-    obtain ⟨s', hs, c1, c2, _, _⟩ := C15_spins p s h1 h2
+    obtain ⟨s', hs, c1, c2, _, _⟩ := C15_spins ee p s h1 h2
     obtain ⟨s'', h⟩ := ih s' c1 c2
     exact ⟨s'', by simp [runLoop, hs, h]⟩
 
-theorem C15_stops_after_drop_false_in_defective_loop : ¬ C15_stops_after_drop_stmt false := by
+theorem C15_stops_after_drop_false_in_defective_loop (ee : Bool) : ¬ C15_stops_after_drop_stmt ⟨false, ee⟩ := by
   intro h
   have := h false ⟨0, 0, false, true⟩ rfl
-  revert this; decide
+  revert this; cases ee <;> decide
 
 /-- With the cache gone and *no* event sender left, the defective loop does exit — but only when
 `ready` happens to name the event channel. -/
 theorem C15_defective_exit_needs_event_pick (s : LoopSt) (h1 : s.msgConn = false) (h2 : s.evConn = false) (h3 : s.evQ = 0) :
-    iter false true s = .exit ∧ ∃ s', iter false false s = .continue_ s' := by
+    iter ⟨false, true⟩ true s = .exit ∧ ∃ s', iter ⟨false, true⟩ false s = .continue_ s' := by
   cases s; simp_all [iter]
+
+/-! ## Quiet when the source has released its sender -/
+
+/-- F-C15b: the events arm leaves the thread when the event channel is disconnected. -/
+theorem C15_cfg_leavesOnEventsDisconnect : genCfg.leavesOnEventsDisconnect = true := by decide
+
+/-- Full-strength statement: a LIVE cache whose source holds no `EventSender` any more (it never
+stored it, or dropped it later) does not keep a running thread: with nothing queued the next
+iteration ends the thread (hot-reloading is over; `reload` / `add_asset` ignore the failed sends). -/
+def C15_quiet_without_sender_stmt (lc : LoopCfg) : Prop :=
+  ∀ (pick : Bool) (s : LoopSt), s.msgConn = true → s.evConn = false → s.msgQ = 0 → s.evQ = 0 → iter lc pick s = .exit
+
+/-- **C15_quiet_without_sender (events arm breaks on `Disconnected`).** -/
+theorem C15_quiet_without_sender (l : Bool) : C15_quiet_without_sender_stmt ⟨l, true⟩ := by
+  intro pick s h1 h2 h3 h4
+  simp [iter, h1, h2, h3, h4]
+
+/-- ... and queued work only delays the exit: whatever is queued, no iteration blocks, and an iteration that
+looks at the event channel after it was drained exits. -/
+theorem C15_without_sender_never_blocks (lc : LoopCfg) (pick : Bool) (s : LoopSt) (h : s.evConn = false) :
+    iter lc pick s ≠ .blocked := by
+  intro hb
+  have := C15_blocks_only_when_idle lc pick s hb
+  simp [h] at this
+
+/-- **Refutation for an events arm that ignores `Disconnected`** (seeded mutation C15-b): `ready` returns at
+once for ever, the iteration continues with the same state — the thread busy-spins for the whole life
+of the cache. -/
+theorem C15_busy_when_events_exit_missing (l pick : Bool) (s : LoopSt) (h1 : s.msgConn = true) (h2 : s.evConn = false)
+    (h3 : s.msgQ = 0) (h4 : s.evQ = 0) : iter ⟨l, false⟩ pick s = .continue_ s := by
+  cases s; simp_all [iter]
+
+theorem C15_quiet_without_sender_false_without_events_exit (l : Bool) : ¬ C15_quiet_without_sender_stmt ⟨l, false⟩ := by
+  intro h
+  have h1 := h false ⟨0, 0, true, false⟩ rfl rfl rfl rfl
+  rw [C15_busy_when_events_exit_missing l false ⟨0, 0, true, false⟩ rfl rfl rfl rfl] at h1
+  cases h1
+
+/-- the verdicts the driver computes for a live cache without sender -/
+theorem C15_verdict_without_sender (l : Bool) :
+    verdict ⟨l, true⟩ ⟨0, 0, true, false⟩ = .exited ∧ verdict ⟨l, false⟩ ⟨0, 0, true, false⟩ = .spinning := by
+  cases l <;> decide
+
+example : iter ⟨true, true⟩ true ⟨0, 0, true, false⟩ = .exit := by decide
+
+theorem C15_quiet_without_sender_today : C15_quiet_without_sender_stmt genCfg.loop := by
+  simp only [Cfg.loop, C15_cfg_leavesOnEventsDisconnect]; exact C15_quiet_without_sender _
 
 /-! ## No accumulation -/
 
 /-- the threads still alive after each of them ran one iteration -/
-def alive (leaves : Bool) (pick : Bool) (ts : List LoopSt) : List LoopSt :=
-  ts.filterMap fun s => match iter leaves pick s with
+def alive (lc : LoopCfg) (pick : Bool) (ts : List LoopSt) : List LoopSt :=
+  ts.filterMap fun s => match iter lc pick s with
     | .exit => none | .blocked => some s | .continue_ s' => some s'
 
 /-- **C15_no_accumulation.** After any number of create/drop rounds (any number of reloader threads
 whose caches are gone), one iteration later none of them runs — whatever they had queued. -/
-theorem C15_no_accumulation (pick : Bool) (ts : List LoopSt) (h : ∀ s ∈ ts, s.msgConn = false) :
-    alive true pick ts = [] := by
+theorem C15_no_accumulation (ee : Bool) (pick : Bool) (ts : List LoopSt) (h : ∀ s ∈ ts, s.msgConn = false) :
+    alive ⟨true, ee⟩ pick ts = [] := by
   induction ts with
   | nil => rfl
   | cons s ts ih =>
-    have hs := C15_stops_after_drop pick s (h s (by simp))
+    have hs := C15_stops_after_drop ee pick s (h s (by simp))
     simp only [alive, List.filterMap_cons, hs]
     exact ih (fun x hx => h x (List.mem_cons_of_mem _ hx))
 
-example : alive true false [⟨1, 0, false, true⟩, ⟨0, 4, false, false⟩, ⟨0, 0, false, true⟩] = [] := by decide
+example : alive ⟨true, true⟩ false [⟨1, 0, false, true⟩, ⟨0, 4, false, false⟩, ⟨0, 0, false, true⟩] = [] := by decide
 
 /-- In the defective loop every dropped cache whose source keeps an event sender leaves a spinning thread behind. -/
-theorem C15_accumulates_in_defective_loop (pick : Bool) (ts : List LoopSt)
-    (h : ∀ s ∈ ts, s.msgConn = false ∧ s.evConn = true) : (alive false pick ts).length = ts.length := by
+theorem C15_accumulates_in_defective_loop (ee : Bool) (pick : Bool) (ts : List LoopSt)
+    (h : ∀ s ∈ ts, s.msgConn = false ∧ s.evConn = true) : (alive ⟨false, ee⟩ pick ts).length = ts.length := by
   induction ts with
   | nil => rfl
   | cons s ts ih =>
-    obtain ⟨s', hs, _⟩ := C15_spins pick s (h s (by simp)).1 (h s (by simp)).2
+    obtain ⟨s', hs, _⟩ := C15_spins ee pick s (h s (by simp)).1 (h s (by simp)).2
     simp only [alive, List.filterMap_cons, hs, List.length_cons]
     have := ih (fun x hx => h x (List.mem_cons_of_mem _ hx))
     simp only [alive] at this
@@ -153,34 +201,34 @@ theorem C15_accumulates_in_defective_loop (pick : Bool) (ts : List LoopSt)
 
 /-! ## What the observer is predicted to see (the function the driver evaluates) -/
 
-theorem C15_verdict_exited (s : LoopSt) (h : s.msgConn = false) : verdict true s = .exited := by
-  simp [verdict, verdictFuel, C15_stops_after_drop false s h]
+theorem C15_verdict_exited (ee : Bool) (s : LoopSt) (h : s.msgConn = false) : verdict ⟨true, ee⟩ s = .exited := by
+  simp [verdict, verdictFuel, C15_stops_after_drop ee false s h]
 
-theorem verdictFuel_spinning (f : Nat) : ∀ (p : Bool) (s : LoopSt), s.msgConn = false → s.evConn = true →
-    verdictFuel false f p s = .spinning := by
+theorem verdictFuel_spinning (ee : Bool) (f : Nat) : ∀ (p : Bool) (s : LoopSt), s.msgConn = false → s.evConn = true →
+    verdictFuel ⟨false, ee⟩ f p s = .spinning := by
   induction f with
   | zero => intro p s _ _; rfl
   | succ f ih =>
     intro p s h1 h2
-    obtain ⟨s', hs, c1, c2, _, _⟩ := C15_spins p s h1 h2
+    obtain ⟨s', hs, c1, c2, _, _⟩ := C15_spins ee p s h1 h2
     simp only [verdictFuel, hs]
     exact ih (!p) s' c1 c2
 
-theorem C15_verdict_spinning (s : LoopSt) (h1 : s.msgConn = false) (h2 : s.evConn = true) : verdict false s = .spinning :=
-  verdictFuel_spinning _ false s h1 h2
+theorem C15_verdict_spinning (ee : Bool) (s : LoopSt) (h1 : s.msgConn = false) (h2 : s.evConn = true) : verdict ⟨false, ee⟩ s = .spinning :=
+  verdictFuel_spinning ee _ false s h1 h2
 
-theorem C15_verdict_asleep (leaves : Bool) (s : LoopSt) (h1 : s.msgConn = true) (h2 : s.evConn = true)
-    (h3 : s.msgQ = 0) (h4 : s.evQ = 0) : verdict leaves s = .asleep := by
-  simp [verdict, verdictFuel, C15_idle_blocks leaves false s h1 h2 h3 h4]
+theorem C15_verdict_asleep (lc : LoopCfg) (s : LoopSt) (h1 : s.msgConn = true) (h2 : s.evConn = true)
+    (h3 : s.msgQ = 0) (h4 : s.evQ = 0) : verdict lc s = .asleep := by
+  simp [verdict, verdictFuel, C15_idle_blocks lc false s h1 h2 h3 h4]
 
 /-! ## At today's source -/
 
 /-- **C15 (full strength, today's source).** -/
-theorem C15_stops_after_drop_today : C15_stops_after_drop_stmt genCfg.leavesOnDisconnect := by
-  rw [C15_cfg_leavesOnDisconnect]; exact C15_stops_after_drop
+theorem C15_stops_after_drop_today : C15_stops_after_drop_stmt genCfg.loop := by
+  simp only [Cfg.loop, C15_cfg_leavesOnDisconnect]; exact C15_stops_after_drop _
 
 theorem C15_no_accumulation_today (pick : Bool) (ts : List LoopSt) (h : ∀ s ∈ ts, s.msgConn = false) :
-    alive genCfg.leavesOnDisconnect pick ts = [] := by
-  rw [C15_cfg_leavesOnDisconnect]; exact C15_no_accumulation pick ts h
+    alive genCfg.loop pick ts = [] := by
+  simp only [Cfg.loop, C15_cfg_leavesOnDisconnect]; exact C15_no_accumulation _ pick ts h
 
 end AmVerif.Props.C15
